@@ -295,3 +295,17 @@ pub fn try_extract_signature_id_from_field(
         _ => None,
     }
 }
+
+/// Verification hook (feature `verif-hooks`, off by default): entry count of every container
+/// of this index, so that tests can observe growth of indexed state.
+#[cfg(feature = "verif-hooks")]
+impl LuaPropertyIndex {
+    pub fn verif_sizes(&self) -> Vec<(&'static str, usize)> {
+        vec![
+            ("property.properties", self.properties.len()),
+            ("property.property_owners_map", self.property_owners_map.len()),
+            ("property.in_filed_owner", self.in_filed_owner.len()),
+            ("property.in_filed_owner.entries", self.in_filed_owner.values().map(|m| m.len()).sum::<usize>()),
+        ]
+    }
+}
